@@ -52,14 +52,37 @@ def err(e):
     return {"st": "err", "kind": type(e).__name__, "msg": str(e)[:200]}
 
 
+class CaseTimeout(BaseException):
+    pass
+
+
+def _alarm(signum, frame):
+    raise CaseTimeout()
+
+
 def serve(handler):
+    import signal
     inp, outp = sys.argv[1], sys.argv[2]
     cases = json.load(open(inp))
+    limit = int(os.environ.get("VERIF_CASE_TIMEOUT", "120"))
+    signal.signal(signal.SIGALRM, _alarm)
+    ntimeouts = 0
     with open(outp, "w") as f:
         for c in cases:
+            if ntimeouts >= 3:           # do not spend the whole budget on a code base that hangs everywhere
+                f.write(json.dumps({"st": "timeout", "limit_s": limit, "skipped": True, "id": c["id"]}) + "\n")
+                continue
             try:
+                signal.setitimer(signal.ITIMER_REAL, limit, 1.0)     # re-fires every second: a swallowed exception is retried
                 r = handler(c)
+                signal.setitimer(signal.ITIMER_REAL, 0)
+            except CaseTimeout:
+                signal.setitimer(signal.ITIMER_REAL, 0)
+                # an observation about the code under test: the call did not come back
+                r = {"st": "timeout", "limit_s": limit}
+                ntimeouts += 1
             except BaseException as e:   # the handler itself must catch API exceptions; this is a harness bug
+                signal.setitimer(signal.ITIMER_REAL, 0)
                 traceback.print_exc()
                 sys.exit(3)
             r["id"] = c["id"]
